@@ -10,6 +10,7 @@ Decided clauses:
  R5 compute-once and side-effect emission (usage counts, inline decision, statements for in-place nodes)
  R6 [S] name fusion is only applied to an input variable that is dead afterwards and lives in the same block
  R7 (thorough, informational) the unused graph interpreter compiler/run.py vs _eval_app
+ R8 every generated variable name is an identifier that is neither a Python keyword nor a reserved (hinted) name
 """
 
 from __future__ import annotations
@@ -456,6 +457,130 @@ def r7(p, rep):
             root, domain, covered, missing = class_domain(p, ch)
             rep.exempt("C04.R7", f"{f.qualname}:missing", f.loc, f"compiler/run.py is not wired to any backend; it lacks handlers for {[m.name for m in missing]} and is therefore not a complete reference interpreter")
 
+def _closure(host, start):
+    """names transitively feeding the names in `start` through plain assignments / comprehensions of host"""
+    seen, todo = set(), list(start)
+    while todo:
+        n = todo.pop()
+        if n in seen:
+            continue
+        seen.add(n)
+        for a in ast.walk(host):
+            if isinstance(a, ast.Assign) and any(isinstance(t, ast.Name) and t.id == n for t in a.targets):
+                todo += [x.id for x in ast.walk(a.value) if isinstance(x, ast.Name)]
+    return seen
+
+
+def _is_keyword_test(p, t, m):
+    """`keyword.iskeyword(x)` / `iskeyword(x)` / `x in keyword.kwlist` -> the tested expression, else None"""
+    if isinstance(t, ast.Call) and t.args:
+        ch = attr_chain(t.func)
+        if ch and ch[-1] == "iskeyword":
+            if len(ch) == 1:
+                b = m.bindings.get("iskeyword")
+                if b is None or "keyword" not in (getattr(b, "target", "") or ""):
+                    return None
+            return t.args[0]
+    if isinstance(t, ast.Compare) and len(t.ops) == 1 and isinstance(t.ops[0], (ast.In, ast.NotIn)):
+        ch = attr_chain(t.comparators[0])
+        if ch and ch[-1] == "kwlist":
+            return t.left
+    return None
+
+
+def _safe_prefix(value):
+    """constant leading text of an f-string / concatenation that no keyword starts with -> the prefix"""
+    import keyword
+
+    lead = None
+    if isinstance(value, ast.JoinedStr) and value.values and isinstance(value.values[0], ast.Constant):
+        lead = value.values[0].value
+    elif isinstance(value, ast.BinOp) and isinstance(value.op, ast.Add) and isinstance(value.left, ast.Constant) and isinstance(value.left.value, str):
+        lead = value.left.value
+    if lead and (lead[0].isalpha() or lead[0] == "_") and not any(k.startswith(lead) for k in keyword.kwlist + keyword.softkwlist):
+        return lead
+    return None
+
+
+def r8(p, rep):
+    rep.rule("C04.R8", "generated variable names are never Python keywords or reserved hint names (the emitted text must compile for any number of variables)", "T-DOM (guard dominates every yield of the name generator)", floor=2)
+    from sa.cfg import decompose
+
+    comp = compile_func(p)
+    m = comp.module
+    scope = [g for g in p.funcs.values() if g.module is m]
+    # the variable -> name map (by role): written as M[id(v)] = <name>, read as `return M[id(x)]` by the emitter
+    read = set()
+    for g in scope:
+        for n in ast.walk(g.node):
+            if isinstance(n, ast.Return) and isinstance(n.value, ast.Subscript) and isinstance(n.value.value, ast.Name) and norm(n.value.slice).startswith("id("):
+                read.add(n.value.value.id)
+    stores = []
+    for g in scope:
+        for n in walk_no_nested(g.node):
+            if isinstance(n, ast.Assign) and len(n.targets) == 1 and isinstance(n.targets[0], ast.Subscript) and isinstance(n.targets[0].value, ast.Name) and n.targets[0].value.id in read and norm(n.targets[0].slice).startswith("id(") and isinstance(n.value, ast.Name):
+                stores.append((g, n))
+    if len(stores) != 1:
+        raise AnalysisError(f"unrecognised idiom: expected one store `names[id(var)] = name` in the code generator, found {len(stores)}")
+    host, store = stores[0]
+    nm = store.value.id
+    defs = [a for a in ast.walk(host.node) if isinstance(a, ast.Assign) and any(isinstance(t, ast.Name) and t.id == nm for t in a.targets)]
+    gens, hint_defs = [], []
+    nested = {g.name: g for g in p.funcs.values() if g.parent is host}
+    for a in defs:
+        v = a.value
+        if isinstance(v, ast.Call) and isinstance(v.func, ast.Name) and v.func.id == "next" and v.args and isinstance(v.args[0], ast.Name):
+            it = v.args[0].id
+            cands = set()
+            if it in nested:
+                cands.add(it)
+            for b in ast.walk(host.node):
+                if isinstance(b, ast.Assign) and any(isinstance(t, ast.Name) and t.id == it for t in b.targets) and isinstance(b.value, ast.Call) and isinstance(b.value.func, ast.Name) and b.value.func.id in nested:
+                    cands.add(b.value.func.id)
+            for c in cands:
+                if any(isinstance(y, (ast.Yield, ast.YieldFrom)) for y in walk_no_nested(nested[c].node)):
+                    gens.append((a, nested[c]))
+        else:
+            hint_defs.append(a)
+    if not gens:
+        raise AnalysisError("unrecognised idiom: no name generator (`name = next(<generator>)`) feeds the variable -> name map")
+    hint_src = _closure(host.node, {x.id for a in hint_defs for x in ast.walk(a.value) if isinstance(x, ast.Name)}) - {nm}
+    rep.info["name_generators"] = [g.qualname for _, g in gens]
+    for a, g in gens:
+        cfg = CFG(g.node)
+        # consumer-side filtering: `while iskeyword(name): name = next(...)` style loops are accepted through the store's guards
+        hcfg = CFG(host.node)
+        sfacts = hcfg.guards_of_ast(store) if hcfg.node_for(store) else []
+        for y in [y for y in walk_no_nested(g.node) if isinstance(y, (ast.Yield, ast.YieldFrom))]:
+            site = f"{m.rel}:{y.lineno}"
+            if isinstance(y, ast.YieldFrom) or y.value is None:
+                raise AnalysisError(f"unrecognised idiom: name generator {g.qualname} uses `{norm(y)}`")
+            facts = cfg.guards_of_ast(y)
+            yv = norm(y.value)
+            # the yielded value may be a local re-bound from the raw product: compare by text
+            kw = any((not pol) and (lambda e: e is not None and norm(e) == yv)(_is_keyword_test(p, t, m)) and not (isinstance(t, ast.Compare) and isinstance(t.ops[0], ast.NotIn)) for t, pol in facts)
+            kw = kw or any(pol and isinstance(t, ast.Compare) and isinstance(t.ops[0], ast.NotIn) and (lambda e: e is not None and norm(e) == yv)(_is_keyword_test(p, t, m)) for t, pol in facts)
+            kw_consumer = any((not pol) and (lambda e: e is not None and norm(e) == nm)(_is_keyword_test(p, t, m)) for t, pol in sfacts)
+            val = y.value
+            if isinstance(val, ast.Name):
+                vd = [b.value for b in walk_no_nested(g.node) if isinstance(b, ast.Assign) and any(isinstance(t, ast.Name) and t.id == val.id for t in b.targets)]
+                if len(vd) == 1:
+                    val = vd[0]
+            prefix = _safe_prefix(val)
+            ok = kw or kw_consumer or prefix is not None
+            rep.add("C04.R8", f"{g.qualname}:yield:not-a-keyword", site, ok, (f"every name starts with {prefix!r}, which no keyword starts with" if prefix else f"`{yv}` is yielded only when keyword.iskeyword({yv}) is false") if ok else f"the name sequence yields `{yv}` without excluding Python keywords: a, b, ..., z, aa, ... reaches `as` (45th), `if`, `in`, `is`, `or`; a graph with that many variables compiles to text that is not valid Python")
+            # reserved names: a generated name must not equal a hinted name (import alias, constN, nested function name)
+            res = False
+            for t, pol in facts:
+                if isinstance(t, ast.Compare) and len(t.ops) == 1 and norm(t.left) == yv and ((isinstance(t.ops[0], ast.NotIn) and pol) or (isinstance(t.ops[0], ast.In) and not pol)):
+                    feeding = _closure(host.node, {x.id for x in ast.walk(t.comparators[0]) if isinstance(x, ast.Name)})
+                    if feeding & hint_src:
+                        res = True
+            if prefix is not None and not res:
+                rep.exempt("C04.R8", f"{g.qualname}:yield:not-a-reserved-name", site, f"names are built from the prefix {prefix!r}; collision with a hinted name is not decided")
+            else:
+                rep.add("C04.R8", f"{g.qualname}:yield:not-a-reserved-name", site, res, f"`{yv}` is yielded only when it is not one of the hinted names ({sorted(hint_src)[:4]})" if res else f"a generated name can equal a hinted name (e.g. the 380th name `np` when numpy is imported as np): the later assignment shadows the import inside the generated function")
+
 
 def run(p, rep, tier):
     r1(p, rep)
@@ -464,6 +589,7 @@ def run(p, rep, tier):
     r4(p, rep)
     r5(p, rep)
     r6(p, rep)
+    r8(p, rep)
     rep.rule("C06.R1", "IR nodes compare every field (graph equality drives inline decisions and pattern matching)", "T-SIB (__init__ vs __eq__)", floor=30)
     c06.r1(p, rep)
     if tier == "thorough":
